@@ -308,6 +308,20 @@ def uniquify_init(spec):
     return spec
 
 
+def depends_on(ast, var, names):
+    """numerical test: does the expression effectively depend on var (x - x does not)"""
+    import numpy as np
+    env1 = {n: 0.37 + 0.11 * i for i, n in enumerate(names)}
+    env2 = dict(env1)
+    env2[var] = env1[var] + 0.7319
+    with np.errstate(all="ignore"):
+        try:
+            a, b = E.evaluate(ast, env1), E.evaluate(ast, env2)
+        except Exception:
+            return False
+    return bool(np.isfinite(a) and np.isfinite(b) and abs(a - b) > 1e-9)
+
+
 @st.composite
 def with_edge_templates(draw, spec, same_keys=None):
     """turn some edges of a spec into edges through EdgeTemplates with one algebraic operator (m_e = f(s_e; g_e, c_e)); values
@@ -320,8 +334,8 @@ def with_edge_templates(draw, spec, same_keys=None):
     n_ops = draw(st.integers(1, 2))
     for k in range(n_ops):
         ast, _ = draw(E.expr_strategy(["s_e", "g_e", "c_e"], max_depth=2, funcs=["tanh", "sigmoid", "sin"], allow_pow=False))
-        if "s_e" not in E.variables(ast):
-            ast = ["bin", "*", ["var", "s_e"], ast] if E.variables(ast) else ["bin", "*", ["var", "g_e"], ["var", "s_e"]]
+        if not depends_on(ast, "s_e", ["s_e", "g_e", "c_e"]):
+            ast = ["bin", "*", ["var", "g_e"], ["call", "tanh", ["bin", "*", ["var", "c_e"], ["var", "s_e"]]]]
         vs = E.variables(ast)
         spec["ops"][f"eop{k}"] = {"vars": [["s_e", "input", 0.0], ["m_e", "alg", 0.0]] +
                                           [[v, "const", d] for v, d in (("g_e", 1.5), ("c_e", 0.8)) if v in vs],
